@@ -266,6 +266,11 @@ def check_obs(P, S, O):
         if O[fo].shape != S[fs].shape or not np.array_equal(O[fo], S[fs]):
             out.append(f"obs_copy_{fo.replace('.', '_')}: observation field {fo} differs from the state field {fs}")
     pos = S["vehicles.positions"].astype(np.int64)
+    if pos.max() >= len(S["nodes.coordinates"]) or pos.min() < 0:
+        # the in-spec action num_customers+1 (one beyond the mask) leaves the vehicle on a non-existent node;
+        # DESIGN §5 records the over-wide action spec as an observation, so the view of such a state is not judged
+        P.hit("position_beyond_last_node_not_judged")
+        return out
     exp = S["nodes.coordinates"][pos]
     if (pos != 0).any():
         P.hit("obs_vehicle_away_from_depot")
